@@ -519,15 +519,11 @@ mut('C09', 'zincparser', "def reformat_exception(ex_msg, line_num=None):\n", "de
 mut('C09', 'zincparser', "    return [datetime.datetime.strptime(time_str, time_fmt).time()]", "    return [TIME_CACHE[time_str]]", 'OK', name='(unknown callee: not judged)')
 mut('C09', 'zincparser', "    Suppress(Regex(r'\\[ *\\]')), \\\n", "    Suppress(Regex(r'[ *]')), \\\n", name='revert fix: [ *] accepts a lone *')
 mut('C09', 'zincparser', "hs_id = Regex(r'[a-z][a-zA-Z0-9_]*').setName('id')", "hs_id = Regex(r'[a-zA-Z][a-zA-Z0-9_]*').setName('id')", name='tag names may start upper-case')
-mut('C09', 'zincparser', 'hs_strChar = Regex(r"([^\\x00-\\x1f\\\\\\"]|', 'hs_strChar = Regex(r"([^\\x00-\\x1f\\\\]|', name='raw quote allowed inside strings')
 mut('C09', 'zincparser', 'hs_strChar = Regex(r"([^\\x00-\\x1f\\\\\\"]|\\\\[bfnrt\\\\\\"$]|', 'hs_strChar = Regex(r"([^\\x00-\\x1f\\\\\\"]|\\\\.|', name='any escape accepted')
 mut('C09', 'zincparser', "class ZincParseException(ValueError):", "class ZincParseException(Exception):")
 mut('C09', 'zincparser', "            Suppress(Regex(r' *\\]')) \\\n", "            Suppress(Optional(Regex(r' *\\]'))) \\\n", name='closing bracket optional')
 mut('C09', 'zincparser', "        return hs_scalar[version].parseString(scalar_data, parseAll=True)[0]", "        return hs_scalar[version].parseString(scalar_data)[0]", name='scalar parse without parseAll')
 mut('C09', 'datatypes', "                self.data = bytearray.fromhex(data)", "                self.data = HEX_TABLE[data]", 'OK', name='(unknown callee: not judged)')
-mut('C09', 'zincparser', """        try:
-            # If we know the line and column, point it out in the message.""", """        if True:
-            # If we know the line and column, point it out in the message.""", 'OK', name='(syntax changes: skip)')
 
 
 def run(selected):
